@@ -54,10 +54,14 @@ type Prog struct {
 	// 2: `ch = float(cg)` where gauge cg is only typed by a later `cg = $1`
 	// with a (\d+) capture; 3: both.
 	Conv int
+	// Inert (optional, C06): that many copies of InertRule at the end of the
+	// program: a pattern that matches no line of the harness but is expensive
+	// on a long line of 'a's.  No metric depends on it (Effects ignores it).
+	Inert int
 }
 
 func (p *Prog) Clone() *Prog {
-	q := &Prog{Lead: p.Lead, Trail: p.Trail, Broken: p.Broken, Off: p.Off, Conv: p.Conv}
+	q := &Prog{Lead: p.Lead, Trail: p.Trail, Broken: p.Broken, Off: p.Off, Conv: p.Conv, Inert: p.Inert}
 	for _, d := range p.Decls {
 		d.Keys = append([]string{}, d.Keys...)
 		q.Decls = append(q.Decls, d)
@@ -147,6 +151,9 @@ func (p *Prog) Source() string {
 	}
 	if p.Conv&2 != 0 {
 		b.WriteString("/^k (\\S+)/ {\n  ch = float(cg)\n}\n/^j (\\d+)/ {\n  cg = $1\n}\n")
+	}
+	for i := 0; i < p.Inert; i++ {
+		b.WriteString(InertRule)
 	}
 	if p.Broken {
 		b.WriteString("} {\n")
